@@ -3,15 +3,17 @@
 R-SIB     the linearity pass looks at statements *and* the branch predicate of a block.
 R-C06.1   every call-node kind has a visitor; each visits the arguments and then reaches
           `_reassign_inout_args` on every normal path (borrowed arguments are handed back).
-R-C06.2   decision predicates (truth tables over copyable / droppable / used / live-later ...):
-          per block:  visit_PlaceNode   raises iff  borrowed and not re-borrowed   (NotOwned)
-                                         raises iff  used before and not copyable  (AlreadyUsed)
-                                         and records the use otherwise;
-                      visit_Expr        raises iff  the discarded value is not droppable;
-          per CFG:    used-and-still-live  raises iff  not copyable and used in this block;
-                      unused-and-not-live  raises iff  not droppable and not used and not
-                                           live in every successor (and in scope here).
-          `used_later` is exactly "live before every successor" (small-case evaluation).
+R-C06.2   decision predicates, by interpretation of the whole functions with the real `Scope` methods:
+          per block (c06_place.py):  visit_PlaceNode on {borrowed or not} x 5 kinds of use x {used before} x {copyable}:
+                      rejected iff (borrowed and not a re-borrow) or (used before and not copyable), else the use is recorded;
+                      visit_Expr rejected iff the discarded value is not droppable (the value is visited either way);
+          per CFG (c06_cfg.py):  check_cfg_linearity on small CFGs --
+                      used and still live:  rejected iff not copyable and used in the block and (live before the successor or
+                                            the block is its own successor), 16 rows;
+                      leaked at block end:  rejected iff not droppable and not used and not live before EVERY successor and
+                                            (live here or assigned here), with and without the place being needed at the
+                                            function's exit, 144 rows.
+          (The truth tables over extracted guards are the fallback when a function cannot be interpreted.)
 R-C06.3   check_cfg runs check_cfg_linearity on every normal path and returns its result;
           every block of the CFG gets a scope (no filtering).
 R-C06.4   the borrow-shadowing check of visit_Assign looks at every place in the target.
@@ -127,13 +129,19 @@ def run(ctx: Ctx) -> None:
             return "+droppable"
         return None
 
-    if "NotOwnedError" in by_err:
+    from . import c06_place
+    place_decided = c06_place.run(ctx)
+    if place_decided:
+        pass
+    elif "NotOwnedError" in by_err:
         table_check(ctx, "R-C06.2", f"{vp.qualname}#not-owned", vp.where, vp.node, by_err["NotOwnedError"], ["inout", "reborrow"], known_place,
                     lambda inout, reborrow: inout and not reborrow,
                     "a borrowed argument can be consumed/moved (or re-borrowing it is rejected)")
     else:
         ctx.violation("R-C06.2", f"{vp.qualname}#not-owned", vp.where, {"raise": None}, "using a borrowed value as if owned is never rejected")
-    if "AlreadyUsedError" in by_err:
+    if place_decided:
+        pass
+    elif "AlreadyUsedError" in by_err:
         # the subscript branch is separate: restrict to the leaf loop
         loop = next((n for n in ast.walk(vp.node) if isinstance(n, ast.For) and "leaf_places" in ast.unparse(n.iter)), None)
         if loop is None:
@@ -152,14 +160,16 @@ def run(ctx: Ctx) -> None:
     ve = chk.methods.get("visit_Expr")
     if ve is None:
         raise AnalysisError("visit_Expr vanished")
-    table_check(ctx, "R-C06.2", f"{ve.qualname}#discarded-value", ve.where, ve.node, [r for r in ast.walk(ve.node) if isinstance(r, ast.Raise)], ["droppable"], known_place,
-                lambda droppable: not droppable, "an expression statement may silently discard a non-droppable value (e.g. a qubit)")
+    if not place_decided:
+        table_check(ctx, "R-C06.2", f"{ve.qualname}#discarded-value", ve.where, ve.node, [r for r in ast.walk(ve.node) if isinstance(r, ast.Raise)], ["droppable"], known_place,
+                    lambda droppable: not droppable, "an expression statement may silently discard a non-droppable value (e.g. a qubit)")
 
     # ------------------------------------------------------------ R-C06.2 CFG-level predicates
     ccl = idx.find_func("check_cfg_linearity", LC)
     ctx.saw("functions", ccl.qualname)
     from . import c06_cfg
-    if not c06_cfg.run(ctx):
+    cfg_decided = c06_cfg.run(ctx)
+    if not cfg_decided:
         # fallback (check_cfg_linearity not interpretable): truth tables of the raise conditions inside the two CFG-level loops
         succ_loop = next((n for n in ast.walk(ccl.node) if isinstance(n, ast.For) and ast.unparse(n.iter) == "bb.successors" and "live_before" in ast.unparse(n.body[0])), None)
         leak_loop = next((n for n in ast.walk(ccl.node) if isinstance(n, ast.For) and ast.unparse(n.iter) == "scope.values()"), None)
@@ -298,5 +308,9 @@ def run(ctx: Ctx) -> None:
                 if nm in by_name and nm not in covered and not nm.startswith("visit"):
                     covered.add(nm)
                     todo.append(nm)
+    if cfg_decided:
+        # check_cfg_linearity was interpreted with the real Scope methods: its maps are keyed by what the per-block checker
+        # recorded (leaf ids, decided above), and its decisions were compared with the specification place by place
+        covered.add("check_cfg_linearity")
     c06_leafwise.run(ctx, covered)
 
